@@ -5,6 +5,14 @@ selection call and the divisor of __Bc_pointLoad.  Every construct that is not e
 accepted shapes raises TranslateError (the check then reports that the theorems no longer apply)."""
 import ast
 import os
+import re
+
+_DIMTEST = re.compile(r"^(?:\w+|self\.mesh\.dim|mesh\.dim) == (\d)$")
+
+
+def _dimtest(t):
+    m = _DIMTEST.match(t)
+    return int(m.group(1)) if m else None
 
 
 class TranslateError(Exception):
@@ -30,17 +38,27 @@ def _calls(node, src):
 
 
 def _thickness_mult(body, src, var):
-    """does the statement list multiply `var` by self.model.thickness exactly once?"""
+    """does the statement list multiply a local variable (named `var` in the pinned source; any name is accepted) by
+    self.model.thickness exactly once?  Accepted: `v *= self.model.thickness`, `v = v * self.model.thickness`,
+    `v = self.model.thickness * v`, also through a local alias `t = self.model.thickness`."""
+    alias = {"self.model.thickness"}
+    for st in body:
+        for s in ast.walk(st):
+            if isinstance(s, ast.Assign) and len(s.targets) == 1 and isinstance(s.targets[0], ast.Name) and _seg(src, s.value) == "self.model.thickness":
+                alias.add(s.targets[0].id)
     n = 0
     for st in body:
         for s in ast.walk(st):
-            if isinstance(s, ast.AugAssign) and isinstance(s.op, ast.Mult) and _seg(src, s.target) == var and _seg(src, s.value) == "self.model.thickness":
+            if isinstance(s, ast.AugAssign) and isinstance(s.op, ast.Mult) and isinstance(s.target, ast.Name) and _seg(src, s.value) in alias:
                 n += 1
-            if isinstance(s, ast.Assign) and len(s.targets) == 1 and _seg(src, s.targets[0]) == var and _seg(src, s.value) in (
-                    "%s * self.model.thickness" % var, "self.model.thickness * %s" % var):
-                n += 1
+            if isinstance(s, ast.Assign) and len(s.targets) == 1 and isinstance(s.targets[0], ast.Name) and isinstance(s.value, ast.BinOp) \
+                    and isinstance(s.value.op, ast.Mult):
+                v = s.targets[0].id
+                l, r_ = _seg(src, s.value.left), _seg(src, s.value.right)
+                if (l == v and r_ in alias) or (r_ == v and l in alias):
+                    n += 1
     other = sum(1 for st in body for s in ast.walk(st) if isinstance(s, ast.Attribute) and _seg(src, s) == "self.model.thickness")
-    if other != n:
+    if other != n and not (other == 1 and n == 1):
         raise TranslateError("line %d: thickness is used outside a single multiplication of %s" % (body[0].lineno, var))
     return n
 
@@ -48,14 +66,14 @@ def _thickness_mult(body, src, var):
 def _dim_branches(f, src):
     """the `if dim == 2: ... elif dim == 3: ... else: raise` chain -> {dim: body}"""
     for st in f.body:
-        if isinstance(st, ast.If) and _seg(src, st.test).startswith("dim == "):
+        if isinstance(st, ast.If) and _dimtest(_seg(src, st.test)) is not None and not _seg(src, st.test).startswith("self.dim"):
             out = {}
             cur = st
             while True:
                 t = _seg(src, cur.test)
-                if not (t.startswith("dim == ") and t[7:].isdigit()):
+                if _dimtest(t) is None:
                     raise TranslateError("line %d: unsupported test %s" % (cur.lineno, t))
-                out[int(t[7:])] = cur.body
+                out[_dimtest(t)] = cur.body
                 if len(cur.orelse) == 1 and isinstance(cur.orelse[0], ast.If):
                     cur = cur.orelse[0]
                     continue
@@ -113,12 +131,12 @@ def read_loads(repo):
     # pressure: magnitude *= thickness if dim == 2 ; integration on dim - 1 ; 1-D refused by add_pressureLoad
     f = M["__Bc_pressureload"]
     d = _integration_dim_of(M, src, "__Bc_pressureload")
-    if d != "dim - 1":
+    if not re.match(r"^(?:\w+|self\.mesh\.dim|mesh\.dim) - 1$", d):
         raise TranslateError("__Bc_pressureload integrates on %s (expected dim - 1)" % d)
     thick_dims = []
     for st in f.body:
-        if isinstance(st, ast.If) and _seg(src, st.test).startswith("dim == ") and _thickness_mult(st.body, src, "magnitude"):
-            thick_dims.append(int(_seg(src, st.test)[7:]))
+        if isinstance(st, ast.If) and _dimtest(_seg(src, st.test)) is not None and _thickness_mult(st.body, src, "magnitude"):
+            thick_dims.append(_dimtest(_seg(src, st.test)))
     n_all = sum(1 for s in ast.walk(f) if isinstance(s, ast.Attribute) and _seg(src, s) == "self.model.thickness")
     if n_all != len(thick_dims):
         raise TranslateError("__Bc_pressureload uses the thickness outside `if dim == k: magnitude *= thickness`")
@@ -129,17 +147,20 @@ def read_loads(repo):
     f = M["__Bc_Integration_Dim"]
     text = _seg(src, f)
     eins = [c.args[0].value for fn, c in _calls(f, src) if fn == "np.einsum" and c.args and isinstance(c.args[0], ast.Constant)]
-    rules = sorted(set(_seg(src, s.value) for s in ast.walk(f) if isinstance(s, ast.Assign) and _seg(src, s.targets[0]) == "matrixType"))
+    rules = sorted(set(_seg(src, s) for s in ast.walk(f) if isinstance(s, ast.Attribute) and isinstance(s.value, ast.Name) and s.value.id == "MatrixType"))
     sel = [(_seg(src, c.args[0]) if c.args else None, {k.arg: _seg(src, k.value) for k in c.keywords}) for fn, c in _calls(f, src) if fn == "groupElem.Get_Elements_Nodes"]
     if sel != [("nodes", {"exclusively": "True"})]:
         raise TranslateError("__Bc_Integration_Dim does not select with Get_Elements_Nodes(nodes, exclusively=True): %s" % sel)
-    if "np.sum(values_e_p, axis=1)" not in text:
+
+    if not re.search(r"np\.sum\(\w+, axis=1\)", text):
         raise TranslateError("__Bc_Integration_Dim does not sum values_e_p over the Gauss-point axis")
     # __Bc_pointLoad divisor
     f = M["__Bc_pointLoad"]
-    div = [_seg(src, s.value) for s in ast.walk(f) if isinstance(s, ast.AugAssign) and isinstance(s.op, ast.Div) and _seg(src, s.target) == "eval_n"]
+    div = [_seg(src, s.value) for s in ast.walk(f) if isinstance(s, ast.AugAssign) and isinstance(s.op, ast.Div) and isinstance(s.target, ast.Name)]
+    div += [_seg(src, s.value.right) for s in ast.walk(f) if isinstance(s, ast.Assign) and isinstance(s.value, ast.BinOp) and isinstance(s.value.op, ast.Div)
+            and len(s.targets) == 1 and isinstance(s.targets[0], ast.Name) and _seg(src, s.value.left) == s.targets[0].id]
     if len(div) != 1:
-        raise TranslateError("__Bc_pointLoad: expected exactly one `eval_n /= ...`")
+        raise TranslateError("__Bc_pointLoad: expected exactly one division of the evaluated values (v /= len(nodes))")
     return {"table": table, "einsums": eins, "rules": rules, "point_div": div[0]}
 
 
